@@ -27,8 +27,8 @@ Theorem C20_f64 :
 Proof.
   intros L p v e c s1 s2 Wc We Hv E1 E2. unfold run_f64.
   destruct (compositionality pt_f64 (eval_f64 L) (comp_f64 L) eq_refl p v e c Wc We Hv) as [Ws Hev].
-  rewrite (wellformed_evaluates lt_f64 conv_f64 pt_f64 (eval_f64 L) eq_refl s1 p _ Ws E1).
-  rewrite (wellformed_evaluates lt_f64 conv_f64 pt_f64 (eval_f64 L) eq_refl s2 v _ Wc E2).
+  rewrite (wellformed_evaluates lt_f64 conv_f64 pt_f64 (eval_f64 L) eq_refl eq_refl s1 p _ Ws E1).
+  rewrite (wellformed_evaluates lt_f64 conv_f64 pt_f64 (eval_f64 L) eq_refl eq_refl s2 v _ Wc E2).
   exact Hev.
 Qed.
 Print Assumptions C20_f64.
@@ -42,8 +42,8 @@ Theorem C20_i64 :
 Proof.
   intros L p v e c s1 s2 Wc We Hv E1 E2. unfold run_i64.
   destruct (compositionality pt_i64 (eval_i64 L) (comp_i64 L) eq_refl p v e c Wc We Hv) as [Ws Hev].
-  rewrite (wellformed_evaluates lt_i64 conv_i64 pt_i64 (eval_i64 L) eq_refl s1 p _ Ws E1).
-  rewrite (wellformed_evaluates lt_i64 conv_i64 pt_i64 (eval_i64 L) eq_refl s2 v _ Wc E2).
+  rewrite (wellformed_evaluates lt_i64 conv_i64 pt_i64 (eval_i64 L) eq_refl eq_refl s1 p _ Ws E1).
+  rewrite (wellformed_evaluates lt_i64 conv_i64 pt_i64 (eval_i64 L) eq_refl eq_refl s2 v _ Wc E2).
   exact Hev.
 Qed.
 Print Assumptions C20_i64.
@@ -57,8 +57,8 @@ Theorem C20_number :
 Proof.
   intros L p v e c s1 s2 Wc We Hv E1 E2. unfold run_num.
   destruct (compositionality pt_number (eval_num L) (comp_num L) eq_refl p v e c Wc We Hv) as [Ws Hev].
-  rewrite (wellformed_evaluates lt_number conv_num pt_number (eval_num L) eq_refl s1 p _ Ws E1).
-  rewrite (wellformed_evaluates lt_number conv_num pt_number (eval_num L) eq_refl s2 v _ Wc E2).
+  rewrite (wellformed_evaluates lt_number conv_num pt_number (eval_num L) eq_refl eq_refl s1 p _ Ws E1).
+  rewrite (wellformed_evaluates lt_number conv_num pt_number (eval_num L) eq_refl eq_refl s2 v _ Wc E2).
   exact Hev.
 Qed.
 Print Assumptions C20_number.
@@ -72,8 +72,8 @@ Theorem C20_complex :
 Proof.
   intros C p v e c s1 s2 Wc We Hv E1 E2. unfold run_cpx.
   destruct (compositionality pt_complex (eval_cpx C) (comp_cpx C) eq_refl p v e c Wc We Hv) as [Ws Hev].
-  rewrite (wellformed_evaluates lt_complex conv_cpx pt_complex (eval_cpx C) eq_refl s1 p _ Ws E1).
-  rewrite (wellformed_evaluates lt_complex conv_cpx pt_complex (eval_cpx C) eq_refl s2 v _ Wc E2).
+  rewrite (wellformed_evaluates lt_complex conv_cpx pt_complex (eval_cpx C) eq_refl eq_refl s1 p _ Ws E1).
+  rewrite (wellformed_evaluates lt_complex conv_cpx pt_complex (eval_cpx C) eq_refl eq_refl s2 v _ Wc E2).
   exact Hev.
 Qed.
 Print Assumptions C20_complex.
@@ -87,8 +87,8 @@ Theorem C20_decimal :
 Proof.
   intros D p v e c s1 s2 Wc We Hv E1 E2. unfold run_dec.
   destruct (compositionality pt_decimal (eval_dec D) (comp_dec D) eq_refl p v e c Wc We Hv) as [Ws Hev].
-  rewrite (wellformed_evaluates lt_decimal (conv_dec D) pt_decimal (eval_dec D) eq_refl s1 p _ Ws E1).
-  rewrite (wellformed_evaluates lt_decimal (conv_dec D) pt_decimal (eval_dec D) eq_refl s2 v _ Wc E2).
+  rewrite (wellformed_evaluates lt_decimal (conv_dec D) pt_decimal (eval_dec D) eq_refl eq_refl s1 p _ Ws E1).
+  rewrite (wellformed_evaluates lt_decimal (conv_dec D) pt_decimal (eval_dec D) eq_refl eq_refl s2 v _ Wc E2).
   exact Hev.
 Qed.
 Print Assumptions C20_decimal.
